@@ -37,10 +37,10 @@ func Tier() string {
 	return "quick"
 }
 
-func Thorough() bool  { return Tier() == "thorough" }
-func Seed() int64     { return envInt("VERIF_SEED", 1) }
-func Shard() int      { return int(envInt("VERIF_SHARD", 0)) }
-func Shards() int     { return int(envInt("VERIF_SHARDS", 1)) }
+func Thorough() bool { return Tier() == "thorough" }
+func Seed() int64    { return envInt("VERIF_SEED", 1) }
+func Shard() int     { return int(envInt("VERIF_SHARD", 0)) }
+func Shards() int    { return int(envInt("VERIF_SHARDS", 1)) }
 func Dir() string {
 	if d := os.Getenv("VERIF_DIR"); d != "" {
 		return d
@@ -112,6 +112,9 @@ func Replay(id, path string) error {
 func Safe(f func() error) (err error) {
 	defer func() {
 		if p := recover(); p != nil {
+			if strings.HasPrefix(fmt.Sprintf("%T", p), "rapid.") {
+				panic(p) // rapid's own control flow (invalid data, stop test) must pass through
+			}
 			err = fmt.Errorf("panic: %v", p)
 		}
 	}()
@@ -527,13 +530,13 @@ func (e *Evidence) Write() error {
 	e.mu.Lock()
 	defer e.mu.Unlock()
 	cov := map[string]interface{}{
-		"evaluations":            e.Evals,
-		"distinct_nontrivial":    int64(len(e.nontriv)) + e.ExtraDistinct,
-		"rule":                   e.Rule,
-		"classes":                e.Classes,
-		"known_findings_hit":     e.KnownHits,
+		"evaluations":              e.Evals,
+		"distinct_nontrivial":      int64(len(e.nontriv)) + e.ExtraDistinct,
+		"rule":                     e.Rule,
+		"classes":                  e.Classes,
+		"known_findings_hit":       e.KnownHits,
 		"excluded_by_construction": e.Excluded,
-		"regressions_replayed":   e.Regress,
+		"regressions_replayed":     e.Regress,
 	}
 	samples := append([]json.RawMessage{}, e.explicit...)
 	for _, s := range e.samples {
@@ -550,6 +553,10 @@ func (e *Evidence) Write() error {
 	}
 	for k, v := range e.Extra {
 		cov[k] = v
+		if cells, ok := v.([]int64); ok && strings.HasSuffix(k, "_cells") {
+			hit, min := cellStats(cells)
+			cov[k+"_hit"], cov[k+"_min"] = hit, min
+		}
 	}
 	ef := evidenceFile{PropertyID: e.ID, Tier: Tier(), Seed: Seed(), Level: "exploration", Coverage: cov,
 		Assumptions: e.Assume, WallS: e.WallS, Violations: e.Violations}
@@ -578,6 +585,19 @@ func (e *Evidence) Write() error {
 		return err
 	}
 	return os.WriteFile(p, out, 0o644)
+}
+
+func cellStats(c []int64) (hit int, min int64) {
+	min = 1 << 62
+	for _, n := range c {
+		if n > 0 {
+			hit++
+		}
+		if n < min {
+			min = n
+		}
+	}
+	return
 }
 
 // MergeShards combines the shard files of a property into evidence/<id>.json.
@@ -637,14 +657,45 @@ func MergeShards(id string, shards int) error {
 				merged.Coverage["samples"] = append(ms, s[len(s)-1])
 			}
 		}
-		for _, ek := range []string{"fuzz_execs"} {
-			if v, ok := ef.Coverage[ek]; ok {
-				addInt(merged.Coverage, ek, v)
+		for ek, v := range ef.Coverage {
+			switch ek {
+			case "evaluations", "distinct_nontrivial", "regressions_replayed", "shards":
+				continue
+			}
+			if strings.HasSuffix(ek, "_hit") || strings.HasSuffix(ek, "_min") || strings.HasPrefix(ek, "const_") {
+				continue
+			}
+			switch x := v.(type) {
+			case float64:
+				addInt(merged.Coverage, ek, x)
+			case []interface{}:
+				if strings.HasSuffix(ek, "_cells") {
+					dst, _ := merged.Coverage[ek].([]interface{})
+					if len(dst) == len(x) {
+						for i := range x {
+							a, _ := dst[i].(float64)
+							b, _ := x[i].(float64)
+							dst[i] = a + b
+						}
+					}
+				}
 			}
 		}
 	}
 	if merged == nil {
 		return fmt.Errorf("no shards")
+	}
+	for k, v := range merged.Coverage {
+		if arr, ok := v.([]interface{}); ok && strings.HasSuffix(k, "_cells") {
+			cells := make([]int64, len(arr))
+			for i := range arr {
+				f, _ := arr[i].(float64)
+				cells[i] = int64(f)
+			}
+			hit, min := cellStats(cells)
+			merged.Coverage[k+"_hit"], merged.Coverage[k+"_min"] = hit, min
+			merged.Coverage[k] = cells
+		}
 	}
 	merged.Coverage["distinct_nontrivial"] = int64(len(union)) + extraDistinct
 	merged.Coverage["shards"] = shards
